@@ -97,17 +97,35 @@ def run(ctx):
     rms = P.call_sites(F, 'Storage::remove_matched_blocks')
     ctx.floor('C04.r2', 'rollback_to_block sites in commit_prove_state', len(rbs), 1)   # 2 on the reviewed tree; merging the two branches is legitimate
     cfg = P.cfg(F)
-    fms = P.call_sites(F, fm)
-    ctx.floor('C04.r2', 'fork search (find_map over reorg headers)', len(fms), 1)
-    after_fm = cfg.reachable_from(cfg.succ[fms[0][0]])
-    muts = uls + ups + [(b, t.span, 'Storage::rollback_to_block') for b, t in rbs if b in after_fm] + \
-        [(b, t.span, 'Storage::remove_matched_blocks') for b, t in rms if b in after_fm]
-    ctx.guard('C04.r2', F, fm, 'Some', muts, unconditional=False, gname='fork point found among remembered last-N headers')
-    # long-fork return value
-    rets_false = [(bid, s.span, 'return Ok(false)') for bid, blk in F.blocks.items() if not blk.cleanup for s in blk.stmts
-                  if s.kind == 'assign' and s.lhs.strip() == '_0' and re.search(r'::Ok\(const false\)', s.rhs)]
+    dec = fork_decision(ctx, F)
+    ctx.ob('C04.r2', F.name, 'commit_prove_state decides on one fork-search result (forked? / highest shared remembered header)', dec is not None)
+    if dec is None:
+        return
+    inner_edges, outer_blocks, is_some = dec['some_some_edges'], dec['outer_blocks'], dec['is_some']
+    after = set()
+    for ob in outer_blocks:
+        after |= cfg.reachable_from(cfg.succ[ob])
+    add = P.call_sites(F, 'Storage::add_matched_blocks')
+    muts = [(b, t.span, 'Storage::rollback_to_block') for b, t in rbs if b in after] + \
+        [(b, t.span, 'Storage::remove_matched_blocks') for b, t in rms if b in after] + \
+        [(b, t.span, 'Storage::add_matched_blocks') for b, t in add if b in after]
+    ctx.floor('C04.r2', 'store mutators behind the fork search', len(muts), 2)
+    # (b) rollback / record changes of the fork branch only with a fork point: no path from the decision reaches them except over
+    #     the `Some(Some(to_number))` edges
+    noss = set()
+    for ob in outer_blocks:
+        noss |= cfg.reachable_from([ob], removed_edges=inner_edges)
+    for b, sp, lbl in muts:
+        ctx.ob('C04.r2', F.name, 'guard fork point found among remembered headers=Some(Some) before %s' % lbl, b not in noss, at=sp)
+    # (a) Ok(false) only for a fork that shares no remembered header; (c) such a fork reaches neither the tip write nor the peer state
+    rets_false = [(bid, s_.span, 'return Ok(false)') for bid, blk in F.blocks.items() if not blk.cleanup for s_ in blk.stmts
+                  if s_.kind == 'assign' and s_.lhs.strip() == '_0' and re.search(r'::Ok\(const false\)', s_.rhs)]
     ctx.floor('C04.r2', 'return Ok(false)', len(rets_false), 1)
-    ctx.guard('C04.r2', F, fm, 'None', rets_false, unconditional=True, gname='fork search')
+    ctx.ob('C04.r2', F.name, 'a fork which shares no remembered header is told apart from "not a fork" (is_some on the search result)', bool(is_some))
+    if is_some:
+        isf = lambda k, t, _b={b for b, _ in is_some}: k.endswith('Option::is_some') and any(t is tt for _, tt in is_some)
+        ctx.guard('C04.r2', F, isf, 'true', rets_false, unconditional=True, gname='fork search result is Some(None) (forked, nothing shared)')
+        ctx.guard('C04.r2', F, isf, 'false', uls + ups, unconditional=False, gname='fork search result is Some(None) (forked, nothing shared)')
     # on the reorg branch the tip write is preceded by the rollback
     tip_after_rollback(ctx, 'C04.r2')
     from engine.locks import Locks
@@ -173,17 +191,56 @@ def stale_filter_hashes(ctx):
            clear_calls=len(clears), unconditional=uncond)
 
 
+def fork_decision(ctx, F):
+    """commit_prove_state holds the fork-search result in one local of type Option<Option<BlockNumber>> (None: not a fork,
+    Some(None): forked but no remembered header is shared, Some(Some(n)): fork point).  Returns the switch edges taken for
+    Some(Some(_)), the blocks of the outer switches and the `is_some` calls on that local."""
+    P = ctx.prog
+    locs = [('_%s' % l) for l, ty in F.locals.items() if re.fullmatch(r'(std::option::)?Option<(std::option::)?Option<u64>>', str(ty).strip())]
+    if not locs:
+        return None
+    lre = '|'.join(re.escape(x) for x in locs)
+    outer, inner = {}, {}
+    for bid, blk in F.blocks.items():
+        if blk.cleanup or blk.term.kind != 'switchInt':
+            continue
+        d = blk.term.discr.replace('move ', '').replace('copy ', '').strip()
+        for st in blk.stmts:
+            if st.kind == 'assign' and st.lhs.strip() == d:
+                if re.fullmatch(r'discriminant\((%s)\)' % lre, st.rhs.strip()):
+                    outer[bid] = blk
+                elif re.fullmatch(r'discriminant\(\(\((%s) as Some\)\.0: [^)]*\)\)' % lre, st.rhs.strip()):
+                    inner[bid] = blk
+    if not outer or not inner:
+        return None
+    edges = set()
+    for bid, blk in inner.items():
+        for c, tgt in blk.term.cases:
+            if c == 1:
+                edges.add((bid, tgt))
+    du = DefUse(F)
+    is_some = [(b, t) for b, k, t in P.call_keys(F) if k.endswith('Option::is_some')
+               and re.search(r'Option::<(std::option::)?Option<u64>>::is_some', t.callee)]
+    return {'some_some_edges': edges, 'outer_blocks': sorted(outer), 'inner_blocks': sorted(inner), 'is_some': is_some}
+
+
 def tip_after_rollback(ctx, rule):
-    """On the reorg branch of commit_prove_state the new tip is persisted only after rollback_to_block: with the fork search
-    having found a fork point, no path reaches update_last_state that avoids the rollback.  (Crash view, C08: a tip written first
+    """On the fork branch of commit_prove_state the new tip is persisted only after rollback_to_block: once the fork search has
+    found a fork point, no path reaches update_last_state that avoids the rollback.  (Crash view, C08: a tip written first
     and a crash before the rollback leaves the fork tip stored with the index, script numbers and matched-block records of the
     abandoned chain; after restart no fork is detected any more.)"""
     P = ctx.prog
     F = ctx.body(CPS)
-    fm = lambda k, t: k.endswith('Iterator>::find_map')
     uls = ctx.sites(F, 'Storage::update_last_state', 1)
     rbs = P.call_sites(F, 'Storage::rollback_to_block')
     if not rbs:
         ctx.ob(rule, F.name, 'the index is rolled back before the new tip is persisted', False, problem='no rollback_to_block call in commit_prove_state')
         return
-    ctx.guard(rule, F, fm, 'None', uls, unconditional=False, removed={b for b, t in rbs}, gname='fork search (paths avoiding rollback_to_block)')
+    dec = fork_decision(ctx, F)
+    if dec is None:
+        ctx.ob(rule, F.name, 'the index is rolled back before the new tip is persisted', False, problem='no fork-search decision found in commit_prove_state')
+        return
+    cfg = P.cfg(F)
+    avoid = cfg.reachable_from([tgt for _, tgt in dec['some_some_edges']], removed_nodes={b for b, t in rbs})
+    for b, sp, lbl in uls:
+        ctx.ob(rule, F.name, 'with a fork point found, every path to update_last_state passes rollback_to_block', b not in avoid, at=sp)
